@@ -68,6 +68,26 @@ def collect(h):
     if by_map == by_path:
         raise h.Missing(f"{rel}: cannot decide the package order in grantsAndRevokes")
     items.append(("parser_grants_in_package_path_order", "bool", "true" if by_path else "false", rel + " grantsAndRevokes (C16-F8)"))
+    # C16-F9 / C16-F10 (open until repaired; no lemma yet rests on these two): the analyser's field lookup has
+    # a cycle guard; the wrong-family container error carries the field position
+    rel = "pkg/parser/impl_analyse.go"
+    h.find(rel, r"^func lookupField\(items \[\]TableItemExpr", "lookupField")
+    body = ""
+    for fn in ("lookupField", "lookupFieldIn"):
+        try:
+            body += h.func_body(rel, r"^func " + fn + r"\(", fn)
+        except h.Missing:
+            pass
+    if "item.FieldSet" not in body:
+        raise h.Missing(f"{rel}: lookupField no longer follows field sets")
+    items.append(("parser_field_lookup_cycles_checked", "bool", "true" if re.search(r"slices\.Contains\(fieldSets,\s*t\)", body) else "false", rel + " lookupField (C16-F9)"))
+    rel = "pkg/parser/impl_build.go"
+    body = h.func_body(rel, r"^func \(c \*buildContext\) addTableFieldToTable\(", "addTableFieldToTable")
+    bare = bool(re.search(r"c\.errs\s*=\s*append\(c\.errs,\s*ErrNestedTableIncorrectKind\)", body))
+    pos = bool(re.search(r"c\.stmtErr\(&field\.Pos,\s*ErrNestedTableIncorrectKind\)", body))
+    if bare == pos:
+        raise h.Missing(f"{rel}: addTableFieldToTable: cannot decide how ErrNestedTableIncorrectKind is reported")
+    items.append(("parser_container_kind_error_positioned", "bool", "true" if pos else "false", rel + " addTableFieldToTable (C16-F10)"))
     # the parser's identifier rule: a letter followed by at most 254 word characters
     rel = "pkg/parser/const.go"
     h.find(rel, r'identifierRegexp\s*=\s*`\(\[a-zA-Z\]\\w\{0,254\}\)\|\("\[a-zA-Z\]\\w\{0,254\}"\)`', "identifierRegexp")
